@@ -331,6 +331,31 @@ func c18round(out *evid.Out, f *evid.Flags, round int, specs []reqSpec) {
 	if r.Chance(1, 4) {
 		access2Pos = r.Intn(len(chosen) + 1)
 	}
+	// in half of the nested rounds a middleware BETWEEN the two AccessHandlers sends something before the inner one
+	// runs (a status, body bytes, or both): the outer AccessHandler reports everything that went out, the inner one
+	// only what went through it (its own first WriteHeader / 200 / 0, its own byte count)
+	prefixKind := 0 // 1: WriteHeader(202)+Write(7 bytes), 2: Write(7 bytes), 3: WriteHeader(202)
+	innerWhich := 0
+	if access2Pos >= 0 {
+		if access2Pos >= accessPos {
+			innerWhich = 1
+		}
+		if pr := rng.New(f.Seed, 0xc18f, uint64(round)); pr.Chance(1, 2) {
+			prefixKind = 1 + pr.Intn(3)
+			out.Count("rounds_with_a_writing_middleware_between_nested_access_handlers", 1)
+		}
+	}
+	mkPrefix := func(next http.Handler) http.Handler {
+		return http.HandlerFunc(func(w http.ResponseWriter, req *http.Request) {
+			if prefixKind == 1 || prefixKind == 3 {
+				w.WriteHeader(202)
+			}
+			if prefixKind == 1 || prefixKind == 2 {
+				w.Write([]byte("PREFIX7"))
+			}
+			next.ServeHTTP(w, req)
+		})
+	}
 	preSeed := r.Chance(1, 3) // some requests arrive with an id already in their context (CtxWithID)
 	// in a third of the rounds every request's context derives from one shared context that already carries a logger
 	// (what http.Server.BaseContext / ConnContext returning appLog.WithContext(ctx) gives): that logger is the
@@ -431,9 +456,15 @@ func c18round(out *evid.Out, f *evid.Flags, round int, specs []reqSpec) {
 	for pos := len(order); pos >= 0; pos-- {
 		if pos == access2Pos {
 			h = mkAccess(1, h)
+			if prefixKind > 0 && innerWhich == 1 {
+				h = mkPrefix(h)
+			}
 		}
 		if pos == accessPos {
 			h = mkAccess(0, h)
+			if prefixKind > 0 && innerWhich == 0 {
+				h = mkPrefix(h)
+			}
 		}
 		if pos > 0 {
 			h = c18handlers[order[pos-1]].mk()(h)
@@ -672,6 +703,16 @@ func c18round(out *evid.Out, f *evid.Flags, round int, specs []reqSpec) {
 			}
 		}
 		fk := fakes[i]
+		// what went through the inner AccessHandler alone (the script) and what went out in total (prefix + script)
+		innerStatus, innerSize := wantStatus, wantSize
+		switch prefixKind {
+		case 1:
+			wantStatus, wantSize = 202, wantSize+7
+		case 2:
+			wantStatus, wantSize = 200, wantSize+7
+		case 3:
+			wantStatus = 202
+		}
 		if fk.status != wantStatus || fk.accepted != wantSize {
 			fmt.Printf("HARNESS-ERROR c18: fake writer recorded (%d,%d), script model says (%d,%d) for %v\n", fk.status, fk.accepted, wantStatus, wantSize, sp.script)
 			out.Count("harness_inconsistency", 1)
@@ -684,6 +725,12 @@ func c18round(out *evid.Out, f *evid.Flags, round int, specs []reqSpec) {
 			ar, ok := access[key]
 			if !ok || accessCount[key] != 1 {
 				viol("access-calls", fmt.Sprintf("request %d: AccessHandler callback %d ran %d times", sp.id, which, accessCount[key]))
+			} else if prefixKind > 0 && which == innerWhich {
+				if ar.status != innerStatus || ar.size != innerSize {
+					viol("access-status-size:inner-of-nested", fmt.Sprintf("request %d (capability set %d): a middleware between two nested AccessHandlers sent prefix kind %d before the inner one ran; the inner AccessHandler reported status=%d size=%d, through it went status=%d and %d accepted bytes (in total the ResponseWriter recorded status=%d accepted=%d: %v)",
+						sp.id, sp.caps, prefixKind, ar.status, ar.size, innerStatus, innerSize, fk.status, fk.accepted, fk.calls))
+				}
+				out.Count("inner_access_reports_compared_after_a_prefix", 1)
 			} else if ar.status != fk.status || ar.size != fk.accepted {
 				names := make([]string, len(script))
 				for k, op := range script {
@@ -697,7 +744,7 @@ func c18round(out *evid.Out, f *evid.Flags, round int, specs []reqSpec) {
 		if len(script) > 0 && script[len(script)-1] == rPanic {
 			out.Count("requests_aborted_by_panic", 1)
 		}
-		out.Case(rng.HashStr(fmt.Sprint(sp.script, sp.caps, order, accessPos, access2Pos)), len(sp.script) > 0 || len(order) > 0)
+		out.Case(rng.HashStr(fmt.Sprint(sp.script, sp.caps, order, accessPos, access2Pos, prefixKind)), len(sp.script) > 0 || len(order) > 0)
 	}
 	for id, n := range idsThisRound {
 		if n > 1 {
